@@ -8,9 +8,9 @@ import (
 	"context"
 	"encoding/hex"
 	"encoding/json"
-	"io"
 	"errors"
 	"fmt"
+	"io"
 	"math/rand"
 	"net"
 	"net/http"
@@ -27,10 +27,11 @@ import (
 	"verifharness/shot"
 
 	pkgerrors "github.com/pkg/errors"
+	"github.com/yandex/pandora/cli"
 	grpcgun "github.com/yandex/pandora/components/guns/grpc"
 	phttp "github.com/yandex/pandora/components/guns/http"
+	pbase "github.com/yandex/pandora/components/providers/base"
 	grpcammo "github.com/yandex/pandora/components/providers/grpc"
-	"github.com/yandex/pandora/cli"
 	"github.com/yandex/pandora/core"
 	"github.com/yandex/pandora/core/aggregator/netsample"
 	"github.com/yandex/pandora/core/config"
@@ -72,6 +73,63 @@ func fmtSamples(res shot.Result, withID bool) string {
 		}
 	}
 	return "res=" + res.Class + " s=" + strings.Join(parts, ";")
+}
+
+// ---------------------------------------------------------------- shared targets
+
+// One scripted target of each kind serves ALL cases of a driver process: what it does with a request is a pure function
+// of that request (header X-Script / metadata x-code), so sharing does not couple cases. A listener per case would tie
+// up one ephemeral port per case for a minute (its TIME_WAIT children) and exhaust the listen half of the port range on a
+// long thorough run.
+var (
+	tgtMu                                 sync.Mutex
+	tgtGiveUp                             time.Time // retries (of all targets together) end here
+	tgtAddr, tls1Addr, tls2Addr, grpcAddr string
+)
+
+// startRetry calls start (which panics when the host has no free port to listen on: other checks share the machine)
+// until it succeeds, for up to a minute (all targets together, well inside the per-case timeout); a case that still cannot get its target panics with the listen error, which the
+// Lean driver classes as inconclusive.
+func startRetry(addr *string, start func() string) string {
+	tgtMu.Lock()
+	defer tgtMu.Unlock()
+	if *addr != "" {
+		return *addr
+	}
+	var last any = "gave up earlier: address already in use"
+	if tgtGiveUp.IsZero() {
+		tgtGiveUp = time.Now().Add(60 * time.Second)
+	}
+	for time.Now().Before(tgtGiveUp) {
+		func() {
+			defer func() {
+				if r := recover(); r != nil {
+					last = r
+				}
+			}()
+			*addr = start()
+		}()
+		if *addr != "" {
+			return *addr
+		}
+		time.Sleep(500 * time.Millisecond)
+	}
+	panic(fmt.Sprint("no target: ", last))
+}
+
+func sharedTarget() string {
+	return startRetry(&tgtAddr, func() string { return shot.NewTarget().Addr })
+}
+
+func sharedTLS(h2 bool) string {
+	if h2 {
+		return startRetry(&tls2Addr, func() string { a, _ := shot.NewTLSTarget(true); return a })
+	}
+	return startRetry(&tls1Addr, func() string { a, _ := shot.NewTLSTarget(false); return a })
+}
+
+func sharedGrpc() string {
+	return startRetry(&grpcAddr, func() string { a, _ := shot.NewGrpcTarget(); return a })
 }
 
 // ---------------------------------------------------------------- engine runs, option dimensions
@@ -182,20 +240,15 @@ func runHTTP(m map[string]string) string {
 	}
 	g := shot.HTTPGunConf{Type: m["gun"], AutoTag: m["auto"] == "1", Elements: atoi(m["el"], 0), NoTagOnly: m["nto"] == "1",
 		RHTimeoutMs: atoi(m["rht"], 0)}
-	var stop func()
 	switch m["tgt"] {
 	case "dead":
 		g.Target = shot.DeadAddr()
 	case "tls2":
-		g.Target, stop = shot.NewTLSTarget(true)
+		g.Target = sharedTLS(true)
 	case "tls1":
-		g.Target, stop = shot.NewTLSTarget(false)
+		g.Target = sharedTLS(false)
 	default:
-		t := shot.NewTarget()
-		g.Target, stop = t.Addr, t.Close
-	}
-	if stop != nil {
-		defer stop()
+		g.Target = sharedTarget()
 	}
 	inst := atoi(m["inst"], 1)
 	conf := spliceGunOpts(shot.HTTPPool(g, reqs, inst), m)
@@ -255,15 +308,9 @@ func runScn(m map[string]string) string {
 		}
 		steps = append(steps, shot.ScnStep{Name: f[0], URI: uri, Script: f[2], PP: scnPP(f[4])})
 	}
-	g := shot.HTTPGunConf{}
+	g := shot.HTTPGunConf{Target: sharedTarget()}
 	if m["gun"] == "http2/scenario" {
-		var stop func()
-		g.Target, stop = shot.NewTLSTarget(true)
-		defer stop()
-	} else {
-		t := shot.NewTarget()
-		defer t.Close()
-		g.Target = t.Addr
+		g.Target = sharedTLS(true)
 	}
 	conf := shot.ScenarioPool(g, m["scn"], steps, atoi(m["n"], 1), 1)
 	if m["gun"] == "http2/scenario" {
@@ -323,8 +370,7 @@ func runGrpc(m map[string]string) string {
 		}
 		reqs = append(reqs, grpcReqOf(f[0], f[1], f[2]))
 	}
-	addr, stop := shot.NewGrpcTarget()
-	defer stop()
+	addr := sharedGrpc()
 	res := runEngine(spliceGrpcOpts(shot.GrpcPool(addr, atoi(m["to"], 0), reqs, 1), m), m["dbg"] == "1", 40*time.Second)
 	return fmtSamples(res, false)
 }
@@ -353,8 +399,7 @@ func runGrpcScn(m map[string]string) string {
 		}
 		calls = append(calls, c)
 	}
-	addr, stop := shot.NewGrpcTarget()
-	defer stop()
+	addr := sharedGrpc()
 	res := runEngine(spliceGrpcOpts(shot.GrpcScenarioPool(addr, atoi(m["to"], 0), m["scn"], calls, atoi(m["n"], 1), 1), m), m["dbg"] == "1", 40*time.Second)
 	return fmtSamples(res, false)
 }
@@ -364,8 +409,7 @@ func runGrpcScn(m map[string]string) string {
 func runIds(m map[string]string) string {
 	n := atoi(m["n"], 100)
 	inst := atoi(m["inst"], 8)
-	t := shot.NewTarget()
-	defer t.Close()
+	t := struct{ Addr string }{sharedTarget()}
 	var conf string
 	pre := ""
 	if m["pre"] == "1" {
@@ -429,6 +473,54 @@ func runIds(m map[string]string) string {
 		}
 	}
 	return fmt.Sprintf("res=%s count=%d distinct=%d min=%d max=%d", res.Class, len(res.Samples), len(ids), mn, mx)
+}
+
+// ---------------------------------------------------------------- k=idstress : the counter itself under contention
+
+// runIDStress hammers (*base.ProviderBase).NextID — the method every http provider's Acquire calls — from g goroutines
+// that each take n ids as fast as they can: the interleaving-sensitive part of "ids are unique" without a network
+// round-trip between two increments.
+func runIDStress(m map[string]string) string {
+	g, n := atoi(m["g"], 16), atoi(m["n"], 100000)
+	var pb pbase.ProviderBase
+	per := make([][]uint64, g)
+	start := make(chan struct{})
+	var wg sync.WaitGroup
+	for i := 0; i < g; i++ {
+		wg.Add(1)
+		go func(i int) {
+			defer wg.Done()
+			ids := make([]uint64, n)
+			<-start
+			for j := range ids {
+				ids[j] = pb.NextID()
+			}
+			per[i] = ids
+		}(i)
+	}
+	close(start)
+	wg.Wait()
+	total := g * n
+	seen := make([]bool, total+1)
+	distinct := 0
+	var mn, mx uint64
+	first := true
+	for _, ids := range per {
+		for _, id := range ids {
+			if first || id < mn {
+				mn = id
+			}
+			if id > mx {
+				mx = id
+			}
+			first = false
+			if id >= 1 && id <= uint64(total) && !seen[id] {
+				seen[id] = true
+				distinct++
+			}
+		}
+	}
+	return fmt.Sprintf("res=ok count=%d distinct=%d min=%d max=%d", total, distinct, mn, mx)
 }
 
 // ---------------------------------------------------------------- k=errno : netsample.getErrno on constructed chains
@@ -546,8 +638,7 @@ func runInv(m map[string]string) string {
 
 func runGrpcDirect(m map[string]string) string {
 	shot.Init()
-	addr, stop := shot.NewGrpcTarget()
-	defer stop()
+	addr := sharedGrpc()
 	g := grpcgun.NewGun(grpcgun.GunConfig{Target: addr})
 	shared, err := g.WarmUp(&warmup.Options{Log: zap.NewNop(), Ctx: context.Background()})
 	if err != nil {
@@ -585,6 +676,8 @@ func run(input string) string {
 		return runGrpcScn(m)
 	case "ids":
 		return runIds(m)
+	case "idstress":
+		return runIDStress(m)
 	case "errno":
 		return runErrno(m)
 	case "inv":
@@ -846,7 +939,7 @@ func gen(r *rand.Rand, tier string) []string {
 		}
 	}
 	// 5b. random settings x URI shapes x outcomes x option dimensions
-	nTag := pick(40, 8000)
+	nTag := pick(40, 12000)
 	for i := 0; i < nTag; i++ {
 		var reqs []string
 		for j := 0; j < 12; j++ {
@@ -857,7 +950,7 @@ func gen(r *rand.Rand, tier string) []string {
 	}
 	// 5c. SEVERAL concurrently shooting instances: every ammo carries the unique tag r<i>, so that each sample can be
 	// attributed to its request whatever id the interleaving of the Acquire calls gave it
-	nMulti := pick(12, 2500)
+	nMulti := pick(12, 6000)
 	for i := 0; i < nMulti; i++ {
 		n := 8 + r.Intn(pick(24, 120))
 		var reqs []string
@@ -871,7 +964,7 @@ func gen(r *rand.Rand, tier string) []string {
 		out = append(out, httpCase([]string{"http", "http", "connect"}[r.Intn(3)], "live", r.Intn(2) == 0, 1+r.Intn(3), false, extra, reqs))
 	}
 	// 6. http scenarios (plain and over HTTP/2)
-	nScn := pick(30, 8000)
+	nScn := pick(30, 16000)
 	for i := 0; i < nScn; i++ {
 		k := 1 + r.Intn(4)
 		h2 := i%10 == 9
@@ -946,7 +1039,7 @@ func gen(r *rand.Rand, tier string) []string {
 		}
 		out = append(out, "k=grpc reqs="+strings.Join(reqs, ";"), "k=grpc to=700 alog=all reqs=hg,hang,0;,ok,0")
 	}
-	nG := pick(6, 2000)
+	nG := pick(6, 4000)
 	for i := 0; i < nG; i++ {
 		var reqs []string
 		for j := 0; j < 10; j++ {
@@ -960,7 +1053,7 @@ func gen(r *rand.Rand, tier string) []string {
 		out = append(out, "k=grpc"+opts+" reqs="+strings.Join(reqs, ";"))
 	}
 	// 8. gRPC scenarios
-	nGS := pick(12, 3000)
+	nGS := pick(12, 8000)
 	for i := 0; i < nGS; i++ {
 		k := 1 + r.Intn(4)
 		var calls []string
@@ -993,6 +1086,9 @@ func gen(r *rand.Rand, tier string) []string {
 				out = append(out, fmt.Sprintf("k=ids prov=%s inst=%d n=%d%s", p, []int{2, 3, 16, 64}[r.Intn(4)], 500+r.Intn(1500), pre))
 			}
 		}
+	}
+	for i := 0; i < pick(2, 12); i++ {
+		out = append(out, fmt.Sprintf("k=idstress g=%d n=%d", []int{16, 4, 64, 2, 32, 8}[i%6], pick(60000, 250000)))
 	}
 	if thorough {
 		out = append(out, "k=ids prov=uri inst=32 n=4000", "k=ids prov=uri inst=1 n=50", "k=ids prov=uri inst=128 n=3000", "k=ids prov=uripost inst=64 n=3000 pre=1")
@@ -1067,6 +1163,8 @@ func class(input, obs string) string {
 		} else {
 			c += ":errno"
 		}
+	case "idstress":
+		c += ":g" + m["g"]
 	case "ids":
 		c += ":" + m["prov"]
 		if m["pre"] == "1" {
